@@ -58,6 +58,7 @@ class Run:
             self.next_req.setdefault(a["app"], 0)
         self.wait_regs: Dict[int, dict] = {}
         self.stopped: set = set()
+        self.opened: set = set()
         self.stops = 0
         self.final_arrays: Dict[int, dict] = {}
         self.final_units: Dict[int, list] = {}
@@ -101,6 +102,9 @@ class Run:
             after_done = self.sc["apps"][i].get("after_done")
             if after_done is not None and self.state[after_done] != "done":
                 continue                      # the host sends this subroutine after that one has returned
+            if self.sc["apps"][i].get("open_socket") and i not in self.opened:
+                out.append(("open", i))       # its host opens the EPR socket first (at any time before the subroutine is sent)
+                continue
             if st == "ready" or (st == "blocked" and self.changed[i]):
                 out.append(("step", i))
         for i, st in enumerate(self.state):
@@ -128,6 +132,14 @@ class Run:
         self.events.append(ch)
         if ch[0] == "step":
             self._advance(ch[1])
+        elif ch[0] == "open":
+            self.opened.add(ch[1])
+            sock, remote = self.sc["apps"][ch[1]]["open_socket"]
+            try:
+                hc.drive(self.ex.setup_epr_socket(sock, remote, sock), self.ex, None)
+            except Exception as exc:
+                raise Violation(f"opening EPR socket {sock} to node {remote} raised {type(exc).__name__}: {str(exc).splitlines()[0][:160]}")
+            self.sockets_opened_mid_run = getattr(self, "sockets_opened_mid_run", 0) + 1
         elif ch[0] == "stop":
             self._stop(ch[1])
         else:
@@ -281,6 +293,17 @@ class Run:
         except Exception as exc:
             raise Violation(f"delivering response {rid} ({spec['kind']}, key {key}) raised {type(exc).__name__}: "
                             f"{str(exc).splitlines()[0][:200]}")
+        if self.sc.get("qlink10"):
+            # the link layer re-uses its response object for the next pair: what it handed over was handed over (the executor
+            # may have had to put the response aside - it keeps what it was given at the time, not the object)
+            for f_, v_ in (("sequence_number", 7777), ("logical_qubit_id", 77), ("measurement_outcome", 1 - getattr(resp, "measurement_outcome", 0)),
+                           ("goodness", 7777), ("create_id", 7777)):
+                if hasattr(resp, f_):
+                    try:
+                        setattr(resp, f_, v_)
+                        self.reused_response_objects = getattr(self, "reused_response_objects", 0) + 1
+                    except Exception:
+                        pass
 
     # ---- wait monitor ---------------------------------------------------------------------------------------------
     def _check_wait(self, i: int, app: int, pc: int) -> None:
